@@ -14,9 +14,9 @@ pub const PER_BATCH: u64 = 300;
 
 pub fn plan(tier: &str, seed: u64) -> Vec<Batch> {
     let (seq, conc, enum2) = match tier {
-        "thorough" => (80, 80, true),
+        "thorough" => (400, 400, true),
         "dev" => (1, 1, false),
-        _ => (8, 8, false),
+        _ => (40, 40, false),
     };
     let mut v = Vec::new();
     for uni in [UniCfg::k(), UniCfg::e()] {
